@@ -113,6 +113,10 @@ type TB interface {
 
 type knownAbort struct{ sig string }
 
+// Abort is implemented by panic values that end the current guarded case without failing it
+// (used by recording test doubles).
+type Abort interface{ IsVerifAbort() }
+
 var (
 	collectMu sync.Mutex
 	collected = map[string]bool{}
@@ -146,6 +150,9 @@ func Guard(f func()) (knownSig string) {
 		if r := recover(); r != nil {
 			if k, ok := r.(knownAbort); ok {
 				knownSig = k.sig
+				return
+			}
+			if _, ok := r.(Abort); ok {
 				return
 			}
 			panic(r)
